@@ -142,6 +142,10 @@ def iteration_of(ex, it_e, st):
         if v.view == 'values':
             return Iteration(n, lambda i: ex.dict_value(d, d.keys[i]))
         return Iteration(n, lambda i: V(vl.vtuple([d.keys[i], as_val(ex.dict_value(d, d.keys[i]))])))
+    if isinstance(v, V) and (static_kind(v.t) == 'VStr' or ex.known_kind(v.t) == 'VStr'):
+        # a string is visited character by character (each a one-character string)
+        sstr = vl.simp(vl.get_s(v.t))
+        return Iteration(z3.Length(sstr), lambda i: V(vl.VStr(z3.SubString(sstr, i, 1))))
     if isinstance(v, SSet):
         # a set is visited in *some* order: an arbitrary sequence with exactly the set's elements, each once.
         # What is proved holds for every such order (the invariants name it _order<k>).
